@@ -555,7 +555,20 @@ func (p *proxyObject) proxyGetOwnPropertyDescriptor(targetProp Value, target *Ob
 		resultDesc.Enumerable == FLAG_TRUE {
 		return resultDesc.Value
 	}
-	return r.toValueProp(trapResultObj)
+	// the answer is built from the descriptor that was checked, not from a second reading of the trap's result
+	ret := &valueProperty{
+		writable:     resultDesc.Writable == FLAG_TRUE,
+		enumerable:   resultDesc.Enumerable == FLAG_TRUE,
+		configurable: resultDesc.Configurable == FLAG_TRUE,
+	}
+	if resultDesc.Getter != nil || resultDesc.Setter != nil {
+		ret.accessor = true
+		ret.getterFunc, _ = resultDesc.Getter.(*Object)
+		ret.setterFunc, _ = resultDesc.Setter.(*Object)
+	} else {
+		ret.value = resultDesc.Value
+	}
+	return ret
 }
 
 func (p *proxyObject) getOwnPropStr(name unistring.String) Value {
